@@ -889,7 +889,9 @@ func Plan(prop, tier string, seed uint64) []RunConfig {
 	case "C11":
 		reps := 1
 		if thorough {
-			reps = 300
+			// (a repetition is ~17 000 cases since the boundary contents were added;
+			// every engine process holds the whole plan: 300 repetitions were 8 GB each)
+			reps = 40
 		}
 		for rep := 0; rep < reps; rep++ {
 			for nb := 0; nb <= 4096; nb++ {
